@@ -18,7 +18,7 @@ COMPONENTS = {"real": ["ECAgent.Core.SystemManager (add_system, remove_system, e
                        "ECAgent.Core.System.clean_up"],
               "stub": ["System.execute bodies are harness recording systems driven by the scenario script"]}
 PROBES = ["actor_first", "actor_middle", "actor_last", "target_before", "target_self", "target_after",
-          "new_higher", "new_equal", "new_lower", "two_mutations_one_step", "hot_swap_same_id"]
+          "new_higher", "new_equal", "new_lower", "two_mutations_one_step", "hot_swap_same_id", "other_model_stepped_mid_timestep"]
 SHRINK_LISTS = ["scripts", "systems"]
 SHRINK_SKIP = ("end",)
 
@@ -57,6 +57,8 @@ def generate(rng, tier):
                 prio_of[spec["id"]] = p
             elif r < 0.93:
                 actions.append({"op": "add_dup", "target": rng.choice(known)})
+            elif r < 0.945:
+                actions.append({"op": "step_other", "n": rng.choice([1, 1, 2])})
             elif r < 0.97:
                 # hot swap: remove a system and register a NEW instance under the same id
                 tgt = rng.choice(known)
@@ -84,6 +86,7 @@ class World:
         self.mut_this_step = 0
         self.gen = 0
         self.spec_of = {}
+        self.other = None
         self.uid_of = {}      # id -> uid of the currently registered instance
 
     def mk(self, spec):
@@ -176,6 +179,26 @@ class World:
             rel = "self" if tgt == rec.id else ("new" if tpos is None else ("before" if tpos < apos else "after"))
             self._effective(apos, behind, "replace", rel)
             ctx.probe("hot_swap_same_id")
+        elif op == "step_other":
+            # nested stepping of a second, independent model (with its own systems and its own removals)
+            if self.other is None:
+                self.other = Model(seed=7)
+                self.other_log = []
+                outer = self
+
+                class Sub(Rec):
+                    def execute(sub_self):
+                        outer.other_log.append(sub_self.id)
+                        if sub_self.id == "o0" and outer.other.systems["o1"] is not None and outer.other.systems.timestep % 2 == 1:
+                            outer.other.systems.remove_system("o1")
+                for j in range(3):
+                    self.other.systems.add_system(Sub({"id": f"o{j}", "prio": 2 - j}, self.other, self))
+            for _ in range(int(act.get("n", 1))):
+                st, v = ctx.call(self.other.execute)
+                if st != "ok":
+                    ctx.fail("nested-step:unexpected-exception", f"{type(v).__name__}: {v}")
+            ctx.probe("other_model_stepped_mid_timestep")
+            ctx.event("step_other", len(self.other_log))
         elif op == "add_dup":
             tgt = act["target"]
             if not ref.has(tgt):
